@@ -1,6 +1,7 @@
 """Action to support jsonschemas."""
 
 import os
+from copy import deepcopy
 from typing import Dict, Optional, Union
 
 from ._actions import _is_action_value_list
@@ -107,10 +108,10 @@ class ActionJsonSchema(Action):
                 if isinstance(validation, jsonschema.exceptions.ValidationError):
                     valid = False
                 yield validation
-            if valid:
+            if valid and isinstance(instance, dict):
                 for prop, subschema in properties.items():
                     if "default" in subschema:
-                        instance.setdefault(prop, subschema["default"])
+                        instance.setdefault(prop, deepcopy(subschema["default"]))
 
         jsonschema = import_jsonschema("ActionJsonSchema")[0]
         return jsonschema.validators.extend(validator_class, {"properties": set_defaults})
